@@ -114,7 +114,9 @@ class Harness:
         self.tier = meta.get("tier", "quick")
         self.kind = meta.get("kind", "proved")      # proved | bounded
         self.cfg = meta.get("cfg", "default")
-        self.timeout = int(meta.get("timeout", "900"))
+        # per-harness CBMC budget. The declared value is about 2x the time measured on an idle machine; the floor keeps a check
+        # that shares the machine with other checks (or with a busy CI host) from ending undecided on the unchanged tree
+        self.timeout = max(int(meta.get("timeout", "900")), 1800 if meta.get("tier", "quick") == "quick" else 3600)
         self.funcs = [f for f in meta.get("funcs", "").split(";") if f]
         self.note = meta.get("note", "")
         self.contract = meta.get("contract", "")
